@@ -14,8 +14,9 @@ from ..ref import c46_keep as ref
 ID = "C46"
 LEVEL = "exploration"
 TECHNIQUE = "runtime monitoring of the real pclean argparser + _dist_validate_args + _remove on scratch distdirs; safety oracle from the statement"
-RULE = ("random scenario = two stub source repositories + an installed set (packages with nested distfile lists, USE-conditional "
-        "'raw' extras, RESTRICT with/without fetch; names that are prefixes of each other, differ in case/separator, shared "
+RULE = ("random scenario = two stub source repositories + an installed set (packages with nested distfile lists, SRC_URI with "
+        "`flag? ( f )` / `!flag? ( f )` / nested groups of which at least one is disabled by the package's USE setting and "
+        "whose files are present in the distdir, RESTRICT with/without fetch; names that are prefixes of each other, differ in case/separator, shared "
         "distfiles, stale versions, installed versions that left the tree) + a scratch distdir (needed, stale, unrelated and "
         "look-alike files; sizes around the --size limit incl. sparse MiB files; mtimes around the --modified threshold; a "
         "sub-directory and a sibling directory) + a random `pclean dist` command line (0-2 targets cat/pn | pn | =cat/pn-ver | "
@@ -29,7 +30,10 @@ RULE = ("random scenario = two stub source repositories + an installed set (pack
 ASSUMPTIONS = [
     "the stub repositories are pkgcore.repository.prototype.tree subclasses over plain data; stub packages are VersionedCPV "
     "subclasses exposing distfiles / restrict / _raw_pkg the way pclean reads them (no ebuild metadata, no profile/USE machinery)",
-    "'needed by a package' = the package's USE-evaluated distfiles; files that are only in the raw (all-USE) list are not judged",
+    "'needed by an installed package' = its USE-bound distfiles (as pclean documents for -I); 'needed by a package in the "
+    "repositories' (-E, -f, -x) = every distfile its SRC_URI lists, including files behind `flag? ( )` / `!flag? ( )` groups "
+    "(nested) that the active USE setting disables - the raw package is a real DepSet parsed from a generated SRC_URI, the "
+    "configured view is its evaluation, cross-checked against pkgcore's evaluate_depset",
     "-f is judged for fetch-restricted packages of the source repositories only; -x patterns are matched against source-repository packages",
     "K/M/G are read as powers of 1024 and m/y as 28/365 days (the reading under which fewest removals are forbidden); "
     "file ages within 120 s of the threshold are not judged",
@@ -43,13 +47,15 @@ TIMEOUT = {"quick": 240, "thorough": 1800}
 MIN_EVALS = 200
 REQUIRED_COUNTERS = ("runs", "files_removed", "runs_with_removal", "guard_active:keep-installed", "guard_active:keep-exists",
                      "guard_active:keep-fetch-restricted", "guard_active:keep-excluded", "filter_active:size",
-                     "filter_active:modified", "with_targets", "protected_file_survived")
+                     "filter_active:modified", "with_targets", "protected_file_survived", "conditional_distfile_guarded",
+                     "conditional_distfile_survived")
 
 
 # ------------------------------------------------------------------------------------------------ stubs
 
 def _stubs():
     from pkgcore.config.hint import ConfigHint
+    from pkgcore.ebuild.conditionals import DepSet
     from pkgcore.ebuild.cpv import VersionedCPV
     from pkgcore.repository import prototype
     from pkgcore.repository.util import RepositoryGroup
@@ -86,9 +92,13 @@ def _stubs():
 
                 def __getattr__(self, name):
                     if name == "_raw_pkg":
-                        raw = data[self.cpvstr].get("raw_distfiles")
-                        if raw is not None:
-                            return Raw(_tuples(raw))
+                        pk = data[self.cpvstr]
+                        if pk.get("src_uri") is not None:
+                            # the raw package's distfiles the way a real ebuild package has them: a DepSet with
+                            # (nested, negated) USE conditionals; the configured view above is its evaluation
+                            return Raw(DepSet.parse(pk["src_uri"], str))
+                        if pk.get("raw_distfiles") is not None:
+                            return Raw(_tuples(pk["raw_distfiles"]))
                     raise AttributeError(name)
 
             self.package_class = Pkg
@@ -181,6 +191,18 @@ def execute(scn, root):
 
     repos = [Repo(r["pkgs"], r["id"]) for r in scn["repos"]]
     inst = Repo(scn["installed"], "vdb")
+    stub_mismatch = []
+    for r in scn["repos"]:
+        for pk in r["pkgs"]:
+            if pk.get("src_uri") is not None:
+                # the generator's by-construction evaluation must be what pkgcore's own conditional evaluation gives
+                from pkgcore.ebuild.conditionals import DepSet
+                from snakeoil.sequences import iflatten_instance
+
+                ds = DepSet.parse(pk["src_uri"], str)
+                if (sorted(iflatten_instance(ds.evaluate_depset(pk["use"]))) != sorted(ref.flat(pk["distfiles"]))
+                        or sorted(iflatten_instance(ds)) != sorted(ref.flat(pk["raw_distfiles"]))):
+                    stub_mismatch.append("%s/%s-%s" % (pk["cat"], pk["pn"], pk["ver"]))
 
     class Dom:
         pkgcore_config_type = ConfigHint(typename="domain")
@@ -217,7 +239,8 @@ def execute(scn, root):
     t_end = time.time()
     after = listing(distdir)
     obs = {"before": before, "after": after, "outside_before": outside_before, "outside_after": tree_listing(outside),
-           "sub_removed": sorted(set(sub_before) - set(tree_listing(distdir)) - set(before)), "t_end": t_end, "res": res}
+           "sub_removed": sorted(set(sub_before) - set(tree_listing(distdir)) - set(before)), "t_end": t_end, "res": res,
+           "stub_mismatch": stub_mismatch}
     return obs
 
 
@@ -238,6 +261,11 @@ def evaluate(ctx, scn, root, origin="random"):
             ctx.count("guard_active:" + g)
             if any(f in obs["after"] for f in present):
                 ctx.count("protected_file_survived")
+    if obs["stub_mismatch"]:
+        ctx.set_inconclusive("stub package view disagrees with pkgcore's evaluation of the generated SRC_URI: %r" % obs["stub_mismatch"][:3])
+    if facts["conditional_guarded"]:
+        ctx.count("conditional_distfile_guarded")
+        ctx.count("conditional_distfile_survived", sum(1 for f in facts["conditional_guarded"] if f in obs["after"]))
     for k in ("size", "modified"):
         if o[k]:
             ctx.count("filter_active:" + k)
@@ -290,7 +318,7 @@ def classify(w):
     # -E only protects the distfiles of the *targeted* packages: a file needed by another package in the tree goes
     # and whose name the target's name/stem regex happens to match
     if (w.get("kind") == "keep-exists" and w.get("with_targets") and w.get("needed_by_targeted") is False
-            and w.get("attributable_to_targets") is not False
+            and w.get("attributable_to_targets") is not False and not w.get("behind_disabled_use_conditional")
             and w.get("scenario", {}).get("opts", {}).get("E")):
         return "exists-guard-limited-to-targeted-packages"
     return None
